@@ -143,6 +143,10 @@ class Ctx:
         cov["known_finding_signatures"] = sorted(self.known_hits)
         if self.unreproduced:
             cov["unreproduced"] = self.unreproduced[:10]
+            print("NOTE: %d finding(s) of a worker did not reproduce on "
+                  "replay and were dropped (see 'unreproduced' in the "
+                  "evidence): %r" % (len(self.unreproduced),
+                                      self.unreproduced[:3]), flush=True)
         if self.notes:
             cov["notes"] = self.notes
         ev = {
